@@ -22,6 +22,7 @@ import (
 	"encoding/json"
 	"fmt"
 	"math"
+	"math/rand/v2"
 	"os"
 	"path/filepath"
 	"sort"
@@ -32,6 +33,7 @@ import (
 	"github.com/canopy-network/canopy/lib"
 	"github.com/canopy-network/canopy/lib/crypto"
 	"github.com/canopy-network/canopy/store"
+	"github.com/cockroachdb/pebble/v2"
 	"github.com/cockroachdb/pebble/v2/vfs"
 )
 
@@ -78,6 +80,7 @@ type NodeOpts struct {
 	Key       crypto.PrivateKeyI // node (validator) key, BLS
 	Root      *Node              // root-chain node this node's root-chain manager looks at; nil = the node itself (own root)
 	Mutate    func(*lib.Config)
+	FS        *vfs.MemFS // optional: start from this file system (a CloneFS() of another node) instead of an empty one
 }
 
 // Node is one full node.
@@ -129,7 +132,11 @@ func (s *Sim) NewNode(o NodeOpts) (*Node, error) {
 	}
 	_ = os.WriteFile(filepath.Join(dir, lib.ProposalsFilePath), []byte("{}"), 0o644)
 	_ = os.WriteFile(filepath.Join(dir, lib.PollsFilePath), []byte("{}"), 0o644)
-	n := &Node{Sim: s, Name: o.Name, Cfg: cfg, FS: vfs.NewCrashableMem(), Key: o.Key, root: o.Root, dir: dir}
+	fs := o.FS
+	if fs == nil {
+		fs = vfs.NewCrashableMem()
+	}
+	n := &Node{Sim: s, Name: o.Name, Cfg: cfg, FS: fs, Key: o.Key, root: o.Root, dir: dir}
 	s.Nodes = append(s.Nodes, n)
 	s.Activate(n)
 	if err = n.open(); err != nil {
@@ -221,6 +228,20 @@ func (n *Node) Restart() error {
 	n.Sim.Activate(n)
 	n.closeStore()
 	return n.open()
+}
+
+// CloneFS returns an independent copy of the node's file system in its committed state (like copying the data directory
+// of a stopped node); NodeOpts.FS starts another node from it.
+func (n *Node) CloneFS() (*vfs.MemFS, error) {
+	if err := n.Store.DB().LogData(nil, pebble.Sync); err != nil {
+		return nil, err
+	}
+	return n.FS.CrashClone(vfs.CrashCloneCfg{UnsyncedDataPercent: 100, RNG: rand.New(rand.NewPCG(1, 2))}), nil
+}
+
+// CloneOf copies an already cloned file system once more (a snapshot can seed several nodes).
+func CloneOf(fs *vfs.MemFS) *vfs.MemFS {
+	return fs.CrashClone(vfs.CrashCloneCfg{UnsyncedDataPercent: 100, RNG: rand.New(rand.NewPCG(1, 2))})
 }
 
 // Height is the height of the next block.
